@@ -48,15 +48,60 @@
 
 #include "common/vharness.hpp"
 
-struct Elem {
+struct PodElem {
     int key;
     int tag;
 };
-static inline bool operator<(const Elem& a, const Elem& b) { return a.key < b.key; }
-static inline bool operator>(const Elem& a, const Elem& b) { return a.key > b.key; }
+static inline bool operator<(const PodElem& a, const PodElem& b) { return a.key < b.key; }
+static inline bool operator>(const PodElem& a, const PodElem& b) { return a.key > b.key; }
+
+// heap-owning, lifetime-tracked element: the splitters copy elements into their sample vectors and heaps; assignment onto
+// storage that never held an object, use of a destroyed element and leaked copies are counted (run on a subset of the cases)
+struct OwnElem {
+    int key;
+    int tag;
+    int* heap;
+    enum { MAGIC = 0x5a5a };
+    static long& live() { static long v = 0; return v; }
+    static long& errors() { static long v = 0; return v; }
+    bool ok() const { return heap != nullptr && *heap == MAGIC; }
+    OwnElem() : key(0), tag(0), heap(new int(MAGIC)) { live()++; }
+    OwnElem(int k, int t) : key(k), tag(t), heap(new int(MAGIC)) { live()++; }
+    OwnElem(const OwnElem& o) : key(o.key), tag(o.tag), heap(new int(MAGIC)) {
+        if (!o.ok()) errors()++;
+        live()++;
+    }
+    OwnElem& operator=(const OwnElem& o) {
+        if (!o.ok() || !ok()) errors()++;
+        key = o.key, tag = o.tag;
+        return *this;
+    }
+    ~OwnElem() {
+        if (!ok()) errors()++;
+        else *heap = 0;
+        delete heap;
+        heap = nullptr;
+        live()--;
+    }
+};
+static inline bool operator<(const OwnElem& a, const OwnElem& b) { return a.key < b.key; }
+static inline bool operator>(const OwnElem& a, const OwnElem& b) { return a.key > b.key; }
+template <class E>
+struct Lifetime {
+    static long live() { return 0; }
+    static long take_errors() { return 0; }
+};
+template <>
+struct Lifetime<OwnElem> {
+    static long live() { return OwnElem::live(); }
+    static long take_errors() {
+        long e = OwnElem::errors();
+        OwnElem::errors() = 0;
+        return e;
+    }
+};
 
 typedef std::ptrdiff_t Rank;
-typedef std::pair<Elem*, Elem*> SeqPair;
 
 static const int MAXM = 26, MAXL = 40, MAXN = 80;
 
@@ -135,13 +180,16 @@ static void outcome_once(int idx, const std::function<std::string()>& text) {
     vh::outcome(text());
 }
 
-static void one_case(const Case& c) {
+template <class Elem>
+static void one_case_t(const Case& c) {
+    typedef std::pair<Elem*, Elem*> SeqPair;
     const int m = c.m;
     const int* len = c.len;
     const int dir = c.greater ? -1 : 1;  // reference order: a precedes b  <=>  dir*a.key < dir*b.key
     Rank N = 0;
     for (int i = 0; i < m; ++i) N += len[i];
     const Rank rank = c.rank;
+    const long live_at_entry = Lifetime<Elem>::live();
     // publish the replay string (no heap allocation on the pass path)
     char rpbuf[MAXM * (MAXL + 1) + 40];
     size_t rpn = case_str(c, rpbuf);
@@ -282,9 +330,24 @@ static void one_case(const Case& c) {
     for (int i = 0; i < m; ++i) delete[] buf[i];
     delete[] seqs;
     delete[] offs;
+    if (long e = Lifetime<Elem>::take_errors())
+        vh::fail("multisequence_partition/element-lifetime", RP(),
+                 RP() + vh::fmt(" %ld use(s) of an element that is not alive (assignment onto raw storage, read of a destroyed element, double destruction)", e));
+    if (Lifetime<Elem>::live() != live_at_entry)
+        vh::fail("multisequence_partition/element-leak", RP(), RP() + vh::fmt(" %ld element copies still alive after the calls returned", Lifetime<Elem>::live() - live_at_entry));
     BUMP("cases", 1);
     BUMP("calls", ncalls);
     if (tie) BUMP("tie_cases", 1);
+}
+
+// every case with the plain element; with the heap-owning element every case with more than 16 sequences and every 29th of the rest
+static void one_case(const Case& c) {
+    one_case_t<PodElem>(c);
+    static unsigned long long n = 0;
+    if (c.m > 16 || (n++ % 29) == 0) {
+        one_case_t<OwnElem>(c);
+        BUMP("cases_with_owning_elements", 1);
+    }
 }
 
 // ---------------------------------------------------------------------------
